@@ -83,6 +83,25 @@ func (p *Program) RegisterSpecs() (err error) {
 			pd.decl.Body = body
 		}()
 	}
+	// ghost state: register sorts so that frames can havoc ghost arrays that were never read
+	for _, g := range p.Spec.Ghosts {
+		gt, err := p.lookupType(g.TypeText, nil)
+		if err != nil {
+			continue
+		}
+		gs, _, err := p.sortFromText(g.SortText, nil)
+		if err != nil {
+			return fmt.Errorf("ghost field %s.%s: %v", g.TypeText, g.Name, err)
+		}
+		heapSorts[ghostHeapName(gt, g.Name)] = ArraySort(SInt, gs)
+	}
+	for _, g := range p.Spec.GhostVars {
+		gs, _, err := p.sortFromText(g.Type, nil)
+		if err != nil {
+			return fmt.Errorf("ghost var %s: %v", g.Name, err)
+		}
+		heapSorts["GV$"+g.Name] = gs
+	}
 	for _, a := range p.Spec.Axioms {
 		func() {
 			defer func() {
